@@ -258,6 +258,80 @@ theorem foldLoop_takes (sd : Side) (f : Nat → Bool) (k : Nat) (c : Consumer) :
         simp only [takes_append, hd]
         cases sd.owns <;> simp [arg, takes]
 
+theorem iterSrc_step_quiet (c : Consumer) :
+    (match iterSrc.step c with
+      | .yield evs _ _ => gives evs = [] ∧ takes evs = []
+      | .done evs _ => gives evs = [] ∧ takes evs = []
+      | .panic evs _ => gives evs = [] ∧ takes evs = []) := by
+  simp only [iterSrc]; cases c.slots[c.idx]? <;> simp
+
+theorem iterSrc_drop_quiet (c : Consumer) : gives (iterSrc.dropEv c) = [] ∧ takes (iterSrc.dropEv c) = [] := by
+  have := consumer_dropEv c
+  exact ⟨this.2.1, this.2.2.1⟩
+
+theorem fill_iterSrc_quiet (k : Nat) (c : Consumer) (out : List Id) :
+    gives (fillLoop true true iterSrc k c out).1 = [] ∧ takes (fillLoop true true iterSrc k c out).1 = [] := by
+  induction k generalizing c out with
+  | zero => simp [fillLoop]
+  | succ k ih =>
+    have hs := iterSrc_step_quiet c
+    cases hstep : iterSrc.step c with
+    | yield evs x c' =>
+      simp only [hstep] at hs
+      simp only [fillLoop, hstep, gives_append, takes_append, hs.1, hs.2, (ih c' _).1, (ih c' _).2, List.append_nil]
+      exact ⟨trivial, trivial⟩
+    | done evs c' => simp only [hstep] at hs; simp only [fillLoop, hstep, hs.1, hs.2]; exact ⟨trivial, trivial⟩
+    | panic evs c' =>
+      simp only [hstep] at hs
+      simp only [fillLoop, hstep, gives_append, takes_append, hs.1, hs.2, builderDrop_true, gives_map_drop, takes_map_drop,
+        (iterSrc_drop_quiet c').1, (iterSrc_drop_quiet c').2, List.append_nil]
+      exact ⟨trivial, trivial⟩
+
+theorem iterSrc_quiet (n : Nat) (hint : Nat × Option Nat) (c : Consumer) :
+    gives (tryFromIter canonFrags iterSrc n hint c).1 = [] ∧ takes (tryFromIter canonFrags iterSrc n hint c).1 = [] := by
+  unfold tryFromIter
+  have e1 : canonFrags.writeBeforeCount = true := rfl
+  have e2 : canonFrags.destFirst = true := rfl
+  have e3 : canonFrags.fullBeforePoll = true := rfl
+  have e4 : canonFrags.finishAfterProbe = true := rfl
+  have eo : iterSrc.owns = true := rfl
+  by_cases hr : hintReject canonFrags hint n = true
+  · simp only [hr, if_true]; exact iterSrc_drop_quiet c
+  · simp only [hr, Bool.false_eq_true, if_false, e1, e2]
+    have hf := fill_iterSrc_quiet n c []
+    rcases hfl : fillLoop true true iterSrc n c [] with ⟨tr, r⟩
+    rw [hfl] at hf
+    simp only [] at hf
+    cases r with
+    | panicked => exact hf
+    | short out s =>
+      simp only [e3, Bool.not_true, Bool.and_false, Bool.false_eq_true, if_false, gives_append, takes_append, hf.1, hf.2,
+        gives_map_drop, takes_map_drop, (iterSrc_drop_quiet s).1, (iterSrc_drop_quiet s).2, List.append_nil]
+      exact ⟨trivial, trivial⟩
+    | full out s =>
+      by_cases hfu : canonFrags.isFull out.length n = true
+      · simp only [hfu, Bool.not_true, Bool.false_eq_true, if_false, e4, if_true, eo]
+        have hs := iterSrc_step_quiet s
+        cases hstep : iterSrc.step s with
+        | yield evs x s' =>
+          simp only [hstep] at hs
+          simp only [gives_append, takes_append, hf.1, hf.2, hs.1, hs.2, gives_map_drop, takes_map_drop,
+            (iterSrc_drop_quiet s').1, (iterSrc_drop_quiet s').2, List.append_nil, gives, takes]
+          exact ⟨trivial, trivial⟩
+        | done evs s' =>
+          simp only [hstep] at hs
+          simp only [gives_append, takes_append, hf.1, hf.2, hs.1, hs.2, (iterSrc_drop_quiet s').1,
+            (iterSrc_drop_quiet s').2, List.append_nil]
+          exact ⟨trivial, trivial⟩
+        | panic evs s' =>
+          simp only [hstep] at hs
+          simp only [gives_append, takes_append, hf.1, hf.2, hs.1, hs.2, gives_map_drop, takes_map_drop,
+            (iterSrc_drop_quiet s').1, (iterSrc_drop_quiet s').2, List.append_nil]
+          exact ⟨trivial, trivial⟩
+      · simp only [hfu, Bool.not_false, if_true, gives_append, takes_append, hf.1, hf.2, gives_map_drop, takes_map_drop,
+          (iterSrc_drop_quiet s).1, (iterSrc_drop_quiet s).2, List.append_nil]
+        exact ⟨trivial, trivial⟩
+
 theorem fresh_cons_perm (A : List (List Id)) (H D fr : List Id) :
     ((fr :: A).flatten ++ H ++ D).Perm (A.flatten ++ H ++ D ++ fr) :=
   perm_of_counts fun a => by simp only [List.flatten_cons, List.count_append]; omega
@@ -653,6 +727,36 @@ theorem step_ledger (p : Pool) (h : Ledger p) (op : Op) : Ledger (step p op) := 
           simp only [List.count_append]
         simp only [ha, List.flatten_cons, List.count_append]; omega
       · simpa [hc, ha] using h
+  | collect n =>
+    simp only [step]
+    obtain ⟨l1, _⟩ := tryFromIter_ledger iterSrc Consumer.owned Consumer.Sync iterSrc_contract rfl n
+      (0, some p.held.length) (Consumer.ofList p.held) (ofList_sync _)
+    rw [libFrags_eq]
+    have hg : gives (tryFromIter canonFrags iterSrc n (0, some p.held.length) (Consumer.ofList p.held)).1 = [] ∧
+        takes (tryFromIter canonFrags iterSrc n (0, some p.held.length) (Consumer.ofList p.held)).1 = [] :=
+      iterSrc_quiet n _ _
+    rw [hg.1, hg.2] at l1
+    have eo : (Consumer.ofList p.held).owned = p.held := rfl
+    simp only [List.nil_append, List.append_nil, eo] at l1
+    cases hc : tryFromIter canonFrags iterSrc n (0, some p.held.length) (Consumer.ofList p.held) with
+    | mk evs r =>
+      rw [hc] at l1
+      cases r with
+      | ok arr =>
+        simp only [Res.ids] at l1 ⊢
+        refine arrays_step_ledger p h _ _ _ (perm_of_counts fun y => ?_)
+        have c := List.perm_iff_count.mp l1 y
+        simp only [List.flatten_cons, List.count_append, List.count_nil] at c ⊢; omega
+      | err =>
+        simp only [Res.ids, List.append_nil] at l1 ⊢
+        refine arrays_step_ledger p h _ _ _ (perm_of_counts fun y => ?_)
+        have c := List.perm_iff_count.mp l1 y
+        simp only [List.count_append, List.count_nil] at c ⊢; omega
+      | panicked =>
+        simp only [Res.ids, List.append_nil] at l1 ⊢
+        refine arrays_step_ledger p h _ _ _ (perm_of_counts fun y => ?_)
+        have c := List.perm_iff_count.mp l1 y
+        simp only [List.count_append, List.count_nil] at c ⊢; omega
   | roundtrip => simpa [step] using h
   | dropArr =>
     simp only [step]
